@@ -8,7 +8,7 @@
 (*   NoDash        C08: no gap character anywhere                           *)
 (*   DupRows       C12: equal ungapped sequences have equal rows            *)
 (***************************************************************************)
-EXTENDS Weave
+EXTENDS Weave, Alphabet
 
 Pattern(row) == [k \in 1..Len(row) |-> IF row[k] = Dash THEN 0 ELSE 1]
 
@@ -32,6 +32,18 @@ ColumnSets(r) ==
 SameColumns(r1, r2) == EqualLen(r1.seqs) /\ EqualLen(r2.seqs) /\ ColumnSets(r1) = ColumnSets(r2)
 
 NoDash(r) == \A i \in 1..Len(r.seqs) : \A k \in 1..Len(r.seqs[i]) : r.seqs[i][k] # Dash
+
+(* C12 premise: for every sequence d that occurs more than once and every other sequence x (x # d),
+   neither contains the other as a substring, on the letters as the guide tree sees them
+   (5-letter nucleotide codes, or the 13 amino-acid similarity classes) *)
+Codes(seq, alpha) == [k \in 1..Len(seq) |-> Code(alpha, seq[k])]
+HasSub(x, d) == Len(d) <= Len(x) /\ \E k \in 0..(Len(x) - Len(d)) : SubSeq(x, k + 1, k + Len(d)) = d
+DupPremise(seqs, alpha) ==
+    LET n == Len(seqs)
+        cs == [i \in 1..n |-> Codes(seqs[i], alpha)]
+        dup == {i \in 1..n : \E j \in 1..n : j # i /\ seqs[j] = seqs[i]}
+    IN \A i \in dup : \A j \in 1..n : seqs[j] # seqs[i] => (~HasSub(cs[j], cs[i]) /\ ~HasSub(cs[i], cs[j]))
+HasDup(seqs) == \E i, j \in 1..Len(seqs) : i # j /\ seqs[i] = seqs[j]
 
 DupRows(r) == \A i, j \in 1..Len(r.seqs) : StripDash(r.seqs[i]) = StripDash(r.seqs[j]) => r.seqs[i] = r.seqs[j]
 =============================================================================
